@@ -69,7 +69,9 @@ func (b *BlueprintGenericSparseR1C[E]) Solve(s Solver[E], inst Instruction) erro
 		den = s.Add(den, u1)
 		den, ok = s.Inverse(den)
 		if !ok {
-			return errDivideByZero
+			// xa is multiplied by zero: the constraint leaves it free. As the R1CS solver does,
+			// set it to zero and check that the constraint holds (DivUnchecked(0, 0) == 0).
+			return b.solveFreeWire(&c, s, c.XA)
 		}
 		v1 := s.GetValue(c.QR, c.XB)
 		v2 := s.GetValue(c.QO, c.XC)
@@ -84,7 +86,7 @@ func (b *BlueprintGenericSparseR1C[E]) Solve(s Solver[E], inst Instruction) erro
 		den = s.Add(den, u2)
 		den, ok = s.Inverse(den)
 		if !ok {
-			return errDivideByZero
+			return b.solveFreeWire(&c, s, c.XB)
 		}
 
 		v1 := s.GetValue(c.QL, c.XA)
@@ -122,6 +124,17 @@ func (b *BlueprintGenericSparseR1C[E]) Solve(s Solver[E], inst Instruction) erro
 		// all wires are solved, we verify that the constraint hold.
 		// this can happen when all wires are from hints or if the constraint is an assertion.
 		return b.checkConstraint(&c, s)
+	}
+	return nil
+}
+
+// solveFreeWire handles an unsolved wire whose multiplier is zero: it is set to zero, and the
+// constraint must hold with that value; otherwise the division by zero is reported.
+func (b *BlueprintGenericSparseR1C[E]) solveFreeWire(c *SparseR1C, s Solver[E], wire uint32) error {
+	var zero E
+	s.SetValue(wire, zero)
+	if err := b.checkConstraint(c, s); err != nil {
+		return errDivideByZero
 	}
 	return nil
 }
